@@ -40,6 +40,8 @@ type rtSpec struct {
 	TM   string `json:"tm,omitempty"`   // explicit .tm text (overrides rendering)
 	Alph []int  `json:"alph,omitempty"` // terminals used in inputs (default: all real terminals)
 	ErrTerm int `json:"errTerm"`        // terminal standing for the 'error' token (0: none)
+	Texts    []string `json:"texts,omitempty"`    // C29: explicit (long) inputs
+	CancelAt []int    `json:"cancelAt,omitempty"` // C29: cancel the context when the k-th listener event is reported
 
 	// filled by rt-gen
 	Pkg      string   `json:"pkg"`
@@ -70,6 +72,7 @@ var (
 	verifErrors []int
 	verifCancel func()
 	verifCancelAt int
+	verifAtCancel int
 )
 
 // VerifParse runs one parse from the given input (entry state = input index) and reports what happened.
@@ -90,8 +93,9 @@ func VerifParse(entry int, text string{{if .Options.Cancellable}}, cancelAtEvent
 {{- if .Options.Cancellable}}
 	ctx, cancel := "context".WithCancel("context".Background())
 	defer cancel()
-	verifCancel, verifCancelAt = cancel, cancelAtEvent
+	verifCancel, verifCancelAt, verifAtCancel = cancel, cancelAtEvent, -1
 	if cancelAtEvent == 0 {
+		verifAtCancel = 0
 		cancel()
 	}
 {{- end}}
@@ -103,6 +107,7 @@ func VerifParse(entry int, text string{{if .Options.Cancellable}}, cancelAtEvent
 		}{{end}}{{if .Parser.Types}}{{if .Parser.IsRecovering}}, {{end}}func(t NodeType, off, end int) {
 			verifEvents = append(verifEvents, int(t), off, end)
 			if verifCancel != nil && len(verifEvents)/3 == verifCancelAt {
+				verifAtCancel = len(verifShifts) / 2
 				verifCancel()
 			}
 		}{{end}})
@@ -117,6 +122,11 @@ func VerifParse(entry int, text string{{if .Options.Cancellable}}, cancelAtEvent
 		panicMsg = "no such input"
 	}
 	shifts = append([]int{}, verifShifts...)
+{{- if .Options.Cancellable}}
+	if cancelAtEvent >= 0 {
+		shifts = append(shifts, verifAtCancel) // odd length: the last element is the number of shifts made when cancel() was called
+	}
+{{- end}}
 	events, errors = verifEvents, verifErrors
 	if err == nil {
 		return true, -1, -1, events, shifts, errors, ""
@@ -289,6 +299,16 @@ func assignTypes(s *rtSpec) {
 	}
 }
 
+func cancelTable(specs []rtSpec) string {
+	var t []string
+	for i := range specs {
+		if specs[i].GenErr == "" && specs[i].Cfg.Cancellable {
+			t = append(t, fmt.Sprintf("\t%q: %s.VerifParse,", specs[i].Pkg, specs[i].Pkg))
+		}
+	}
+	return strings.Join(t, "\n")
+}
+
 func allMarkers(rhs []int) bool {
 	for _, s := range rhs {
 		if s >= 0 {
@@ -365,6 +385,7 @@ type job struct {
 	Alph    []int  ` + "`json:\"alph\"`" + `
 	Events  bool   ` + "`json:\"events\"`" + `
 	Texts   []string ` + "`json:\"texts\"`" + `
+	CancelAt []int   ` + "`json:\"cancelAt\"`" + `
 }
 
 type result struct {
@@ -374,9 +395,15 @@ type result struct {
 	Sh   [][][]int   ` + "`json:\"sh,omitempty\"`" + `
 	Er   [][][]int   ` + "`json:\"er,omitempty\"`" + `
 	Bad  []string    ` + "`json:\"bad\"`" + `    // panics, hangs, non-syntax errors
+	Cancel [][][]int ` + "`json:\"cancel,omitempty\"`" + ` // per text, per cancel point: [kind (1 ok, 0 syntax error, 2 context error, 3 other), events, shifts, shiftsAtCancel]
 }
 
 type parseFn func(entry int, text string) (bool, int, int, []int, []int, []int, string)
+type cancelFn func(entry int, text string, cancelAt int) (bool, int, int, []int, []int, []int, string)
+
+var cancelParsers = map[string]cancelFn{
+%s
+}
 
 var parsers = map[string]parseFn{
 %s
@@ -423,6 +450,37 @@ func main() {
 		}
 		f := parsers[j.Pkg]
 		res := result{Pkg: j.Pkg, Bad: []string{}}
+		if cf, ok := cancelParsers[j.Pkg]; ok && len(j.Texts) > 0 {
+			for _, text := range j.Texts {
+				var row [][]int
+				for _, k := range append([]int{-1}, j.CancelAt...) {
+					okp, off, _, ev, sh, _, pm := cf(0, text, k)
+					kind := 0
+					switch {
+					case okp:
+						kind = 1
+					case pm == "error: context canceled":
+						kind = 2
+					case pm != "" || off < 0:
+						kind = 3
+						res.Bad = append(res.Bad, pm)
+					}
+					// shifts at the moment of cancellation = number of shift records made before the k-th event;
+					// events and shifts are interleaved in time: the adapter stores it in the last element
+					at := -1
+					if len(sh)%%2 == 1 {
+						at = sh[len(sh)-1]
+						sh = sh[:len(sh)-1]
+					}
+					row = append(row, []int{kind, len(ev) / 3, len(sh) / 2, at})
+				}
+				res.Cancel = append(res.Cancel, row)
+			}
+			res.Runs = [][][]int{}
+			enc.Encode(res)
+			out.Flush()
+			continue
+		}
 		hangs := 0
 		for e := 0; e < j.NInputs; e++ {
 			var runs, evs, shs, ers [][]int
@@ -527,7 +585,7 @@ func rtGen(args []string) error {
 	if err := os.WriteFile(filepath.Join(mod, "go.mod"), []byte("module rt\n\ngo 1.25\n"), 0o644); err != nil {
 		return err
 	}
-	mainSrc := fmt.Sprintf(rtMainTmpl, strings.Join(imports, "\n"), strings.Join(table, "\n"))
+	mainSrc := fmt.Sprintf(rtMainTmpl, strings.Join(imports, "\n"), cancelTable(specs), strings.Join(table, "\n"))
 	if err := os.WriteFile(filepath.Join(mod, "main.go"), []byte(mainSrc), 0o644); err != nil {
 		return err
 	}
@@ -573,7 +631,7 @@ func rtGen(args []string) error {
 			table = append(table, fmt.Sprintf("\t%q: %s.VerifParse,", s.Pkg, s.Pkg))
 		}
 	}
-	mainSrc = fmt.Sprintf(rtMainTmpl, strings.Join(imports, "\n"), strings.Join(table, "\n"))
+	mainSrc = fmt.Sprintf(rtMainTmpl, strings.Join(imports, "\n"), cancelTable(specs), strings.Join(table, "\n"))
 	if err := os.WriteFile(filepath.Join(mod, "main.go"), []byte(mainSrc), 0o644); err != nil {
 		return err
 	}
@@ -590,7 +648,7 @@ func rtGen(args []string) error {
 		if s.GenErr != "" {
 			continue
 		}
-		j, _ := json.Marshal(map[string]any{"pkg": s.Pkg, "nInputs": s.NInputs, "L": s.L, "alph": s.Alph, "events": s.Cfg.Events})
+		j, _ := json.Marshal(map[string]any{"pkg": s.Pkg, "nInputs": s.NInputs, "L": s.L, "alph": s.Alph, "events": s.Cfg.Events, "texts": s.Texts, "cancelAt": s.CancelAt})
 		jobs.Write(j)
 		jobs.WriteByte('\n')
 	}
